@@ -257,6 +257,12 @@ def build_def_case(rng, mode, stats):
     return case
 
 
+# embeddings with a SIBLING lambda on the line of the wanted one (recorded finding D35 lambda_same_line: such a lambda
+# object is REFUSED with "more than 1 lambda expressions found"; what must never happen is that another lambda of the
+# line is captured instead - seeded/C20_r4): refusal is accepted for these cases, a capture must be faithful
+LAM_EMBED_SIBLING = [("L0_, L_ = lambda q_: q_ - 7, ", ""), ("L_, L1_ = ", ", lambda q_: q_ - 7"),
+                     ("L_ = dict(low=lambda q_: 0, high=", ")['high']"), ("L_ = [lambda: 5, ", "][1]"),
+                     ("L_ = (lambda q_: (", "))(0)")]
 LAM_EMBED_FUNC = [("L_ = ", ""), ("L_ = (", ")"), ("L_ = grab(", ", 3)"), ("L_ = [1, ", "][1]"), ("L_ = {'k': ", "}['k']"),
                   ("L_ = ", "  # comment"), ("L_ = ", "; z_ = 1"), ("L_ = grab(k=1, f=", ")"), ("L_ = grab( ", " )"),
                   ("z_ = 'lambda: 0'; L_ = ", "")]
@@ -295,6 +301,9 @@ def build_lam_case(rng, mode, stats):
         case["text"] = text
     else:
         pre, post = rng.choice(LAM_EMBED_FUNC)
+        if rng.random() < 0.12 and not L["multiline"]:
+            pre, post = rng.choice(LAM_EMBED_SIBLING)
+            case["sibling_lambda"] = True
         lam = L["lam"]
         if ind:
             lam_r = lam.replace("\n", "\n" + ind)
@@ -330,6 +339,8 @@ def analyse(case, res, terms, out):
     if "driver_err" in res or "plain_err" in res:
         raise fw.Broken("harness problem on case %r: %r" % (case.get("text") or case.get("file_body"), res))
     if "create_err" in res:
+        if case.get("sibling_lambda") and "more than 1 lambda" in res["create_err"]:
+            return fails            # D35 (recorded): refused, nothing captured
         pf("creation of a cells from a valid definition failed: %s" % res["create_err"])
         return fails
     if "pos_err" in res:
@@ -415,9 +426,11 @@ def analyse(case, res, terms, out):
             pf("cells name %r, expected %r" % (name, case["name"]))
         src = cr["source"]
         lp = res["lampos"]
-        if lp.get("count", 1) != 1:
+        if lp.get("count", 1) != 1 and not case.get("sibling_lambda"):
             raise fw.Broken("generator put %d lambdas on one line" % lp["count"])
-        if case["mode"] == "source":
+        if case.get("sibling_lambda"):
+            pass        # accepted although D35 refuses such lines: (P) only - the capture must be the wanted lambda
+        elif case["mode"] == "source":
             if case["lt"] is not None:
                 lt = case["lt"]
                 terms.append((label, "(TLam (mk_lt %s %s %s %s %s %s) %s %s %s %s %s)" % (
